@@ -1,3 +1,28 @@
+import os
+import subprocess
+
 from harness.props._engine_common import make
 
 explore, search, replay = make({"C17", "C07"}, n_prim_q=40, n_op_q=0, n_intr_q=100, n_prim_t=500, n_op_t=0, n_intr_t=3000)
+
+ASSUMPTIONS = [
+    "the KeyboardInterrupt reaches the calling thread while it is inside queue.join() (where it spends the run); an interrupt during "
+    "thread start-up or during the final join is outside the statement and recorded as known finding F7",
+    "between delivery of the signal and the execution of `stop = True` workers may still start calls (a few bytecodes)",
+]
+
+
+def probe_known(ctx, k):
+    """F7: SIGINT during worker_pool's thread start-up (real signal, subprocess)."""
+    here = os.path.dirname(os.path.dirname(os.path.abspath(__file__)))
+    env = dict(os.environ, PYTHONPATH="/repo/src")
+    try:
+        r = subprocess.run(["/venv/bin/python", os.path.join(here, "probes", "ki_during_spawn.py")], capture_output=True, text=True,
+                           timeout=20, env=env)
+    except subprocess.TimeoutExpired:
+        return "present"
+    return "present" if r.stdout.strip().startswith("present") else "absent"
+
+
+def matches_known(k, v):
+    return isinstance(v, dict) and v.get("witness_kind") == "interrupt-during-thread-startup"
